@@ -1341,3 +1341,79 @@ def r16g(ctx, rep, rule="R16g"):
         else:
             rep.ok(rule, key, "<Number as %s>::fmt formats every numeric component with fmt::%s" % (tr, tr), [f.span])
     rep.floor(rule, "numeric formatting sites inside the radix printers", n, 12)
+
+
+def _paths_to(fn, target, limit=4000):
+    """acyclic paths entry -> target as lists of (switch_bb, taken) decisions; None when there are too many"""
+    out = []
+    stack = [(0, [], frozenset([0]))]
+    while stack:
+        bb, dec, seen = stack.pop()
+        if bb == target:
+            out.append(dec)
+            if len(out) > limit:
+                return None
+            continue
+        t = fn.blocks[bb]["term"]
+        if t["k"] == "switch":
+            for v, tg in [(v, tg) for v, tg in t["targets"]] + [("else", t.get("otherwise"))]:
+                if tg is not None and tg not in seen and not fn.blocks[tg].get("cleanup"):
+                    stack.append((tg, dec + [(bb, v)], seen | {tg}))
+        else:
+            for tg in fn.succ[bb]:
+                if tg not in seen and not fn.blocks[tg].get("cleanup"):
+                    stack.append((tg, dec, seen | {tg}))
+    return out
+
+
+def r08j(ctx, rep, rule="R08j"):
+    """Ratio<i32>::checked_div and gcd(0, i32::MIN)"""
+    from .. import shapes
+    facts = ctx["facts"]
+    rep.rule(rule, "a library routine with a hole is entered only around the hole: num-rational's Ratio<i32>::checked_div reduces by "
+             "gcd(lhs.numer, rhs.numer) before dividing, and num-integer's gcd(0, i32::MIN) overflows (abs of i32::MIN) — "
+             "(/ 0 -2147483648/3) must be 0, not a panic. On every path in the library to a call of Ratio<i32>::checked_div "
+             "either the dividend's numerator was tested and found non-zero, or the divisor's numerator was tested and found zero "
+             "(checked_div answers None for a zero divisor before it reduces).")
+    n = 0
+    for p, f in sorted(facts.fns.items()):
+        if f.crate != "marwood":
+            continue
+        k = 0
+        for bb, t in f.calls():
+            if not (callee(t) or "").endswith("CheckedDiv>::checked_div") or "Ratio<i32>" not in (t.get("fnargs") or ""):
+                continue
+            k += 1
+            n += 1
+            key = "%s|%s|checked_div#%d" % (rule, f.short.rsplit("::", 1)[-1] if "{closure" not in f.short else f.short, k)
+            a1 = re.escape(shapes.shape(f, t["args"][0], 3))
+            a2 = re.escape(shapes.shape(f, t["args"][1], 3))
+            paths = _paths_to(f, bb)
+            if paths is None:
+                rep.fail(rule, key, "too many paths to the checked_div call in %s to decide" % f.short, [t["loc"]])
+                continue
+            bad = None
+            for dec in paths:
+                ok = False
+                for sb, v in dec:
+                    tt = f.blocks[sb]["term"]
+                    sh = shapes.shape(f, tt["op"], 5)
+                    truth = (v == "else") if tt.get("opty") == "bool" else None
+                    if truth is None:
+                        continue
+                    m = re.fullmatch(r"\((Eq|Ne) \*?num::rational::Ratio::<T>::numer\((.*)\) c:0\)", sh)
+                    if not m:
+                        continue
+                    is_zero = truth if m.group(1) == "Eq" else (not truth)
+                    if re.fullmatch(a1, m.group(2)) and not is_zero:
+                        ok = True
+                    if re.fullmatch(a2, m.group(2)) and is_zero:
+                        ok = True
+                if not ok:
+                    bad = dec
+                    break
+            (rep.ok if bad is None else rep.fail)(
+                rule, key, "%s reaches checked_div only with a non-zero dividend or a zero divisor (%d path(s))" % (f.short, len(paths)) if bad is None else
+                "%s can call Ratio<i32>::checked_div with a zero dividend and a non-zero divisor: gcd(0, i32::MIN) overflows inside it, "
+                "so (/ 0 -2147483648/3) panics instead of returning 0" % f.short, [t["loc"]])
+    rep.floor(rule, "calls of Ratio<i32>::checked_div in the library", n, 1)
